@@ -73,6 +73,9 @@ impl Binder {
             )
             .into());
         };
+        if !crate::types::DataType::is_supported(&return_type) {
+            return Err(ErrorKind::Todo(format!("type {return_type}")).into());
+        }
         let return_type = crate::types::DataType::from(&return_type);
 
         // TODO: language check (e.g., currently only support sql)
@@ -112,6 +115,9 @@ impl Binder {
         let mut arg_types = vec![];
         let mut arg_names = vec![];
         for arg in args.unwrap_or_default() {
+            if !crate::types::DataType::is_supported(&arg.data_type) {
+                return Err(ErrorKind::Todo(format!("type {}", arg.data_type)).into());
+            }
             arg_types.push((&arg.data_type).into());
             arg_names.push(arg.name.map_or("".to_string(), |n| n.to_string()));
         }
